@@ -281,6 +281,10 @@ def run(prog, chk):
     if memrules.run_counters(prog, r5) < 1:
         raise Broken("no run counter found in parser.c (expected delim_count of scan_triple_delim_string)")
 
+    # shared with C08 (R6 there): what the document denotes does not depend on where the reads of the character source end
+    from . import c08
+    c08.source_accounting(prog, chk)
+
     r6 = chk.rule("R6-bracket-arms-agree", "in scan_unquoted the arms for opening and for closing brackets decide `this is not a "
                   "data_/save_ header, the bracket ends the value` with the same condition: both kinds of bracket end an unquoted "
                   "value in the same circumstances", primary=False, floor=1)
